@@ -33,9 +33,10 @@ JudgeAdd(e) ==
              " where the specification says " \o (IF a.err = "" THEN "accepted" ELSE a.err)>>, <<>>)
   ELSE IF a.err = ""
     THEN J(Fail(e.ret = a.ret, "accepted Exons.Add did not return the sorted union of the old and the new exons"),
-           Fail(e.old = e.before, "accepted Exons.Add rewrote the slice it was called on") \o
+           Fail(e.old = a.old, "accepted Exons.Add rewrote the slice it was called on") \o
            Fail(e.xsafter = e.xs, "Exons.Add modified its argument slice"))
-    ELSE J(Fail(e.ret = e.before /\ e.old = e.before,
+    ELSE J(Fail(IF Variant = "spec" THEN e.ret = e.before /\ e.old = e.before
+                ELSE e.old \in AddOlds(e.before, e.spare, e.xs) /\ e.ret = e.old,    \* diagnosis runs only
                 "rejected Exons.Add (" \o e.err \o ") changed the previous exon set: " \o
                 (IF e.old # e.before THEN "the slice it was called on is rewritten" ELSE "the slice it was called on is intact") \o
                 (IF e.ret # e.before THEN ", the returned slice is not the old one" ELSE "")),
